@@ -31,7 +31,8 @@ def load_check(prop: str):
 
 
 def load_known(prop: str):
-    path = os.path.join(VERIF_DIR, 'known_findings.json')
+    """Known findings live in one committed file per property: /verif/known/<ID>.json"""
+    path = os.path.join(VERIF_DIR, 'known', f'{prop}.json')
     if not os.path.exists(path):
         return []
     with open(path) as f:
@@ -257,8 +258,8 @@ def main(argv=None):
 
     # --- known findings: re-confirm and announce ------------------------------------
     for e in known:
-        if e.get('status') != 'known':
-            continue
+        if e.get('status') != 'known' or e.get('alias_of'):
+            continue  # aliases let the same finding match in another sub-check; announced once
         sub = next((s for s in mod.SUBCHECKS if s.name == e.get('subcheck')), None)
         if sub is None or 'spec' not in e:
             print(f"KNOWN-FINDING: property={prop} {e['what']}")
